@@ -9,6 +9,7 @@ import (
 	"fmt"
 	"os"
 	"os/exec"
+	"regexp"
 	"sort"
 	"strings"
 
@@ -29,9 +30,9 @@ func init() {
 		ID:    "C20",
 		Level: "model_checking",
 		Rule: "S1 (API seam, ALL interleavings): every assignment of operation sequences over {GetSymHash(k1), GetSymHash(k2), SymHash2Str(h1), SymHash2Str(h2), env.Items()} to 2 threads x 2 ops (thorough also 2x3 and 3x1, 3x2) on two fresh keys forced to collide; " +
-			"S2 (real evaluations, deviation bound 1, thorough 2): 2-3 Evals in separate scopes of one interpreter that intern the same new identifiers, call evalEnv and decode JSON; " +
+			"S2 (real evaluations, deviation bound 1, thorough 2): 2-3 Evals in separate scopes of one interpreter that intern the same new identifiers, call evalEnv, decode JSON and compare/hash/print the strings the symbol table hands out; " +
 			"S3 (start-up loaders, bound 1, thorough 2): pairs of the real readNativeCode bodies from the table state that exists when the start-up goroutines are spawned; " +
-			"the tables are restored to a snapshot before every execution; oracle: no happens-before-unordered conflicting accesses on symHashTable/strTable, SymHash2Str returns what the thread interned, Items() never panics, no deadlock, same final tables and results in every schedule; " +
+			"the tables are restored to a snapshot before every execution; oracle: no happens-before-unordered conflicting accesses on symHashTable/strTable nor on any field of an object-package struct that some statement assigns after construction (every read/write of such a field is recorded per object; at present Env.Store, PanErr.StackTrace, PanFunc.Env, PanObj.Keys/Pairs/PrivateKeys/zero; a new lazily written field is picked up automatically), SymHash2Str returns what the thread interned, Items() never panics, no deadlock, same final tables and results in every schedule; " +
 			"states = schedules executed, transitions = scheduling steps; non-trivial = schedule containing a cross-thread conflicting access pair; distinct = distinct (scenario, choice vector)",
 		Assumptions: []string{
 			"memory model: a data-race-free Go program is sequentially consistent; races are what is detected",
@@ -93,6 +94,9 @@ func newKeysOnly(w *world) string {
 }
 
 // ---------------------------------------------------------------- thread bodies
+
+// objOrdinal: the per-schedule number of an object in a field location name (Type.field#n)
+var objOrdinal = regexp.MustCompile(`#[0-9]+$`)
 
 var k1, k2 = "zz_c20_key_one", "zz_c20_key_two"
 
@@ -276,7 +280,7 @@ func (w *world) explore(t tcase, maxExec int) {
 		c.Outcome(fmt.Sprintf("%s:races=%v:switches=%d", t.Scenario, len(cur.res.Races) > 0, min(cur.res.Switches, 4)))
 		if len(cur.res.Races) > 0 {
 			r := cur.res.Races[0]
-			viol("data-race/"+r.Table+"/"+strip(r.A)+"-vs-"+strip(r.B), "every conflicting pair of accesses to "+r.Table+" ordered by the lock", fmt.Sprintf("%s and %s are unordered (%d racy pairs in this schedule)", r.A, r.B, len(cur.res.Races)), x)
+			viol("data-race/"+objOrdinal.ReplaceAllString(r.Table, "")+"/"+strip(r.A)+"-vs-"+strip(r.B), "every conflicting pair of accesses to "+r.Table+" ordered by the lock", fmt.Sprintf("%s and %s are unordered (%d racy pairs in this schedule)", r.A, r.B, len(cur.res.Races)), x)
 		}
 		if cur.res.Deadlock {
 			viol("deadlock", "all threads finish", "no enabled thread while some are unfinished", x)
@@ -440,6 +444,8 @@ var s2programs = []string{
 	"\"zz_c20_a := 1; zz_c20_c := 2\".evalEnv.keys",
 	"JSON.dec(`{\"zz_c20_a\": 1, \"zz_c20_d\": 2}`).keys",
 	"{zz_c20_b: 1, zz_c20_e: 2}.keys",
+	// strings handed out by the interpreter-wide symbol table used as values: compared, hashed as map keys, printed
+	"k := \"zz_c20_a := 1; zz_c20_c := 2\".evalEnv.keys; [k[0] == \"zz_c20_a\", %{k[1]: 1}[k[1]], k[0] + k[1], k.S]",
 }
 
 func genS2(thorough bool, emit func(tcase)) {
